@@ -785,7 +785,7 @@ fn exercise_base(idx: usize, base: &[String], rng: &mut Rng, thorough: bool) -> 
                     out.sample = Some(json!({"base_index": idx, "base_statements": n, "position": k, "class": class, "placement": placement, "inserted": stmts,
                         "path": if path == Path::Run { "run" } else { "staged" }, "profile": profile.name(), "channel": channel, "stdout_plan": case.plan,
                         "exit": o.exit.show(), "stdout_bytes": o.stdout.len(), "expected_prefix_bytes": prefix_through_marker(&base_stdout, k - 1).len(),
-                        "stderr_first_line_digits_masked": String::from_utf8_lossy(&o.stderr).lines().find(|l| !l.trim().is_empty()).map(|l| first_line(l, 100).chars().map(|c| if c.is_ascii_digit() { '#' } else { c }).collect::<String>())}));
+                        "stderr_first_line_digits_masked": String::from_utf8_lossy(&o.stderr).lines().find(|l| !l.trim().is_empty()).map(|l| super::util::mask_digits(&first_line(l, 100)))}));
                 }
             }
         }
